@@ -574,3 +574,115 @@ def _check_c05(run, drv, rng, n_chains, n_values, opts) -> None:
             continue
         if "ok" not in mdl or G.msg_val_from_json(m_old, mdl["ok"]) != exp:
             run.notes.setdefault("model_disagreements", []).append(dict(replay, observed_impl=got, model_answer=mdl))
+
+
+# ===================================================================== multi-file programs (imports) through the Python runtime
+def _home_build(mods: Dict[int, Any], m: G.MsgDef, v: Dict[int, Any]):
+    """build a generated message object; every definition is taken from the module of the file that DECLARES it"""
+    def conv(t, x):
+        if isinstance(t, G.TBool):
+            return bool(x)
+        if isinstance(t, G.TArray):
+            if isinstance(t.elem, G.TByte):
+                return bytearray(x)
+            return [conv(t.elem, e) for e in x]
+        if isinstance(t, G.TRef):
+            d = t.d
+            if isinstance(d, G.AliasDef):
+                return conv(d.type, x)
+            if isinstance(d, G.MsgDef):
+                return _home_build(mods, d, x)
+        return int(x)
+
+    obj = getattr(mods[id(m.home)], G.py_name(m))()
+    for f in m.fields:
+        setattr(obj, f.name, conv(f.type, v[f.num]))
+    return obj
+
+
+def add_cross_file_twins(rng: random.Random, main: G.Schema) -> bool:
+    """the same nested path (`Outer.Color`, `Outer.Item`) declared in an imported file AND in the importing file, with
+    different shapes, both used by one message of the importing file"""
+    libs = [i for (i, _) in main.imports]
+    if not libs:
+        return False
+    lib = rng.choice(libs)
+    if any(d.name in ("Outer", "Pen") for d in lib.defs + main.defs):
+        return False
+    wl, wm = rng.sample([2, 3, 5, 9, 12, 17], 2)
+
+    def outer(w: int, nf: int) -> G.MsgDef:
+        o = G.MsgDef("Outer", False)
+        col = G.EnumDef("Color", w, [("COLOR_VA", 0), ("COLOR_VB", (1 << w) - 1)], o)
+        it = G.MsgDef("Item", rng.random() < 0.4, parent=o)
+        it.fields = [G.Field(f"i{chr(97 + k)}_x", k + 1, G.TUint(rng.choice([3, 7, 12]))) for k in range(nf)]
+        o.nested = [col, it]
+        o.fields = [G.Field("c", 1, G.TRef(col)), G.Field("it", 2, G.TRef(it))]
+        return o
+
+    ol, om = outer(wl, 1), outer(wm, 2)
+    lib.defs.append(ol)
+    main.defs.append(om)
+    pen = G.MsgDef("Pen", False)
+    pen.fields = [G.Field("far_color", 1, G.TRef(ol.nested[0])), G.Field("near_color", 2, G.TRef(om.nested[0])),
+                  G.Field("far_items", 3, G.TArray(G.TRef(ol.nested[1]), 2, False)), G.Field("near_item", 4, G.TRef(om.nested[1])),
+                  G.Field("far", 5, G.TRef(ol)), G.Field("near", 6, G.TRef(om))]
+    main.defs.append(pen)
+    G.set_home(lib)
+    G.set_home(main)
+    return True
+
+
+def check_multifile(run: common.Run, drv: common.Driver, rng: random.Random, n: int, n_values: int, pid: str) -> None:
+    """programs with imports: every message of the importing file is encoded by the generated Python (modules importing
+    each other, as generated) and compared with the specification; decoding must give the value back"""
+    import importlib
+    import sys
+
+    from .props_c12 import compile_program
+
+    with R.Scratch() as sc:
+        for k in range(n):
+            po = G.ProgOpts(n_imports=(1, 2), options=False, consts=True,
+                            gen=G.GenOpts(max_depth=2, max_fields=4, max_bits=900, big_prob=0.0, enum_zero_first=True))
+            main = G.ProgramGen(rng, po).program()
+            if not main.imports:
+                continue
+            twins = add_cross_file_twins(rng, main) if rng.random() < 0.6 else False
+            for j, f in enumerate(main.all_files()):
+                f.proto = f"mf{pid.lower()}{k}x{j}{'abcdefgh'[rng.randrange(8)]}"
+            d = sc.path(f"mf{k}")
+            os.makedirs(d)
+            try:
+                files, mods = compile_program(d, main, rng, False)
+            except Exception as e:
+                run.violation({"kind": "impl-vs-spec", "input": {"files": G.program_files(main)}, "observed_impl": f"{type(e).__name__}: {str(e)[:300]}",
+                               "expected_by_spec": "a valid multi-file program compiles and its generated Python modules import"})
+                continue
+            try:
+                jobs = []
+                for m in main.messages():
+                    for _ in range(n_values):
+                        jobs.append((m, G.rand_msg_value(rng, m)))
+                enc = drv.batch([{"op": "spec.encode", "ty": G.msg_ty_json(m), "val": G.msg_val_json(m, v)} for (m, v) in jobs])
+                for (m, v), e in zip(jobs, enc):
+                    run.evaluated()
+                    run.count("multifile" + (":cross-file-twins" if twins else ""))
+                    run.nontrivial((pid, "multifile", G.py_name(m), twins, G.msg_nbits(m)))
+                    rep = {"input": {"files": files, "message": G.py_name(m), "ty": G.msg_ty_json(m), "val": G.msg_val_json(m, v)}}
+                    try:
+                        obj = _home_build(mods, m, v)
+                        b = bytes(obj.encode())
+                        back = getattr(mods[id(m.home)], G.py_name(m))()
+                        back.decode(bytearray(b))
+                        got = R.py_read(m, back)
+                    except Exception as ex:
+                        run.violation(dict(rep, kind="impl-vs-spec", observed_impl=f"{type(ex).__name__}: {str(ex)[:200]}", expected_by_spec=e))
+                        continue
+                    if b.hex() != e.get("ok"):
+                        run.violation(dict(rep, kind="impl-vs-spec", observed_impl=b.hex(), expected_by_spec=e))
+                    elif got != v:
+                        run.violation(dict(rep, kind="impl-vs-spec", observed_impl={"decode": got}, expected_by_spec={"decode": v}))
+            finally:
+                for mm in mods.values():
+                    sys.modules.pop(mm.__name__, None)
